@@ -61,7 +61,11 @@ def yieldsAltitude (segs : List SegX) (e level : Rat) (extra : Rat := 0) : Bool 
       let u0 : Rat := if s.durMs = 0 then 0 else (e - s.startSec) / d
       let u := max 0 (min 1 u0)
       let δu : Rat := if s.durMs = 0 then 0 else δ / d
-      absR (Sturm.eval s.pz u - level) ≤ zTol s.pz level + absSum (Sturm.deriv s.pz) 1 * δu + extra
+      -- the value it yields, or (forward criterion, as for the solver in C18) an exact solution within the
+      -- local-time tolerance of the reported point
+      absR (Sturm.eval s.pz u - level) ≤ zTol s.pz level + absSum (Sturm.deriv s.pz) 1 * δu + extra ||
+        (let q := Sturm.addP s.pz [-level]
+         !Sturm.isZero q && Sturm.countClosed q (max 0 (u - uTol s.pz - δu)) (min 1 (u + uTol s.pz + δu)) > 0)
     else false
 
 /-- is `level` robustly reached (from below) strictly before the instant `e`? -/
@@ -125,6 +129,10 @@ def checkTakeoff (segs : List SegX) (z0 : Rat) (q ans : String) : Except String 
             | _, _ => .pinf
           if take ≠ expectTake then .error s!"takeoff: E - T: E bits {earlS}, T bits {adjS}, result bits {takeS}"
           else
+          -- T is the accelerate-cruise-decelerate climb time of height h (the rule of C20)
+          match Sb.Corr.ttJudge h v a adj adjS with
+          | .error m => .error s!"takeoff: climb time T: {m}"
+          | .ok _ =>
             match earl with
             | .fin e =>
               if e < 0 then .error "takeoff: negative crossing time" else
